@@ -96,6 +96,10 @@ fn roots_family(ctx: &Ctx, tag: &str, cons: &Consensus, a: &[BlockView], b: &[Bl
     let order: Vec<BlockView> = order.unwrap_or_else(|| a.iter().chain(b.iter()).cloned().collect());
     let mut reorgs = 0;
     let mut prev_tip = cons.genesis_hash();
+    // readers that still hold a snapshot from before later deliveries (the block assembler, a
+    // light-client request in progress, RPC): each held snapshot must keep answering for ITS chain,
+    // and its reads must not disturb what newer snapshots answer
+    let mut held: Vec<(std::sync::Arc<ckb_snapshot::Snapshot>, Vec<BlockView>)> = vec![];
     for blk in order.iter() {
         if let Err(e) = node.process(blk) {
             report.violation("root/valid-block-refused", format!("{tag}: block {} {} (verified as a tip by the forge) is refused: {e}", blk.number(), blk.hash()), label.clone());
@@ -108,7 +112,24 @@ fn roots_family(ctx: &Ctx, tag: &str, cons: &Consensus, a: &[BlockView], b: &[Bl
         }
         prev_tip = tip.hash();
         report.transitions += 1;
+        // (a) every held snapshot is read first (roots at every height of its own chain) ...
+        for (hs, hmain) in &held {
+            let ht = hs.tip_number();
+            for n in 0..ht {
+                let got = hs.chain_root_mmr(n).get_root().map_err(|e| e.to_string())?;
+                let want = ref_root(hmain, n as usize)?;
+                report.evaluations += 1;
+                if got.as_slice() != want.as_slice() {
+                    report.violation("root/held-snapshot-differs", format!("{tag}: a snapshot taken at tip {ht} ({}) and read after the tip moved to {}: chain_root_mmr({n}).get_root() differs from the MMR over ITS chain's blocks 0..={n}", hs.tip_hash(), tip.number()), label.clone());
+                }
+            }
+        }
+        // (b) ... then the current one
         let snap = node.shared.snapshot();
+        held.push((std::sync::Arc::clone(&snap), main.clone()));
+        if held.len() > 4 {
+            held.remove(0);
+        }
         let t = tip.number();
         // store-backed root for every height
         for n in 0..t {
